@@ -13,6 +13,8 @@ fn latches(op: &OpRec) -> Option<String> {
         (Outcome::Err(ErrRepr::InvalidPacket), _) => Some("invalid-packet".into()),
         // disconnect()/disconnect_with() returned after passing its local validation
         (Outcome::Ok(_), "disconnect") if op.live_before => Some("disconnect-called".into()),
+        // ... also when the transport then accepted nothing ("after disconnect() was called")
+        (Outcome::Err(ErrRepr::WriteZero), "disconnect") if op.live_before => Some("disconnect-called-write-zero".into()),
         _ => None,
     }
 }
